@@ -81,6 +81,9 @@ type frame struct {
 	entryR string
 	loopK  map[*ssa.BasicBlock]int
 	callOrd map[string]int
+	assignPos map[token.Pos]bool
+	callPosOrd map[token.Pos]int
+	defPosOrd  map[token.Pos]int
 }
 
 type deferred struct {
@@ -132,6 +135,7 @@ type Gen struct {
 	nret int
 	replay *replayInfo
 	assumedIdx []int
+	firedAnchors map[string]bool
 }
 
 func newGen(w *World, fn *ssa.Function, c *Contract) *Gen {
